@@ -103,7 +103,8 @@ Ltac side :=
   lazymatch goal with
   | |- lookup _ _ = _ => cbn [lf_path]; reflexivity
   | |- _ \/ _ => first [left; closed | right; apply mask_order_free]
-  | |- _ => first [closed | rewrite header_bytes_length; reflexivity | reflexivity]
+  | |- _ = List.length (header_bytes _ _ _ _ _) + _ => rewrite header_bytes_length; reflexivity
+  | |- _ => closed
   end.
 
 Lemma message_length r seq pid :
